@@ -7,6 +7,17 @@ from translate.gatecode import _cm, _method
 from translate.guards import _flat
 
 
+def _immutable_literal(node):
+    try:
+        v = ast.literal_eval(node)
+    except Exception:
+        return False
+
+    def imm(x):
+        return isinstance(x, (str, int, float, bool, type(None))) or (isinstance(x, tuple) and all(imm(y) for y in x))
+    return imm(v)
+
+
 def gen_libio():
     mod = _cm()
     comp = _flat(ast.unparse(_method(mod, "CompiledLogicNet", "compile")))
@@ -21,7 +32,7 @@ def gen_libio():
         save = "AtomicRename"      # staged in a file of its own (per call) in the target directory, then renamed into place
     else:
         _fail("compile: unknown save discipline")
-    if "lib = ctypes.cdll.LoadLibrary(lib_file.name)\nself._setup_library_function(lib)" not in comp:
+    if "lib = ctypes.cdll.LoadLibrary(lib_file.name)\nfor name, value in tables.items():\nsetattr(self, name, value)\nself._setup_library_function(lib)" not in comp:
         _fail("compile: the instance does not load its own temporary build")
     if "with tempfile.NamedTemporaryFile(suffix='.so') as lib_file:" not in comp:
         _fail("compile: temporary build file")
@@ -75,13 +86,15 @@ def gen_libio():
         exp = ["if self.model is None:\n    raise ValueError('This CompiledLogicNet was loaded from a library and has no model to compile.')",
                "with tempfile.NamedTemporaryFile(suffix='.so') as lib_file:\n"
                "    with tempfile.NamedTemporaryFile(mode='w', suffix='.c') as c_file:\n"
-               "        code = self.get_c_code()\n        c_file.write(code)\n        c_file.flush()\n        t_s = time.time()\n"
+               "        code, tables = self._translate()\n        c_file.write(code)\n        c_file.flush()\n        t_s = time.time()\n"
                "        compiler_out = subprocess.run([self.cpu_compiler, '-shared', '-fPIC', f'-O{opt_level}', '-o', lib_file.name, c_file.name])\n"
                "        if compiler_out.returncode != 0:\n            raise RuntimeError(f'compilation exited with error code {compiler_out.returncode}')\n"
                "    if save_lib_path is not None:\n"
                "        tmp_fd, tmp_save_path = tempfile.mkstemp(prefix=os.path.basename(save_lib_path) + '.tmp', dir=os.path.dirname(os.path.abspath(save_lib_path)))\n"
                "        os.close(tmp_fd)\n        shutil.copy(lib_file.name, tmp_save_path)\n        os.replace(tmp_save_path, save_lib_path)\n"
-               "    lib = ctypes.cdll.LoadLibrary(lib_file.name)\n    self._setup_library_function(lib)"]
+               # the tables that describe the library are installed with it, after everything succeeded (F67)
+               "    lib = ctypes.cdll.LoadLibrary(lib_file.name)\n    for name, value in tables.items():\n        setattr(self, name, value)\n"
+               "    self._setup_library_function(lib)"]
         if got != exp:
             for i, (a, b) in enumerate(zip(got, exp)):
                 if a != b:
@@ -92,6 +105,8 @@ def gen_libio():
     for n in mod.body:
         if isinstance(n, ast.ClassDef) and n.name == "CompiledLogicNet":
             for st in n.body:
+                if isinstance(st, ast.Assign) and _immutable_literal(st.value):
+                    continue              # a constant (tuple of strings, number): nothing an instance could leave behind for another
                 if isinstance(st, (ast.Assign, ast.AnnAssign, ast.AugAssign)):
                     _fail("CompiledLogicNet has a class-level attribute (state shared by all instances): " + ast.unparse(st)[:80])
     passes_bits = "self = CompiledLogicNet(None, num_bits=num_bits)" in load
